@@ -318,6 +318,12 @@ func genC07(r *rand.Rand, rg *c07Rig, id string, thorough bool) *c07Req {
 		sc.NoBody = true
 		sc.Body = nil
 	}
+	if r.Intn(12) == 0 {
+		sc.Info = []int{103} // early hints before the final answer
+		if r.Intn(3) == 0 {
+			sc.Info = []int{103, 103}
+		}
+	}
 	if q.Route == -2 {
 		sc = &rawhttp.Script{Upgrade: true}
 	}
@@ -767,5 +773,5 @@ func c07Describe(q *c07Req) string {
 	if q.Upgrade != "" {
 		up = " Upgrade=" + q.Upgrade
 	}
-	return fmt.Sprintf("%s %s?%s Host=%s via=%s from=%s body=%dB chunked=%v%s headers=[%s] upstream-script={status %d framing %s body %dB}", q.Method, q.RawPath, q.Query, q.HostHdr, q.Via, q.Local, len(q.Body), q.Chunked, up, strings.Join(hs, " | "), q.Script.Status, q.Script.Framing, len(q.Script.Body))
+	return fmt.Sprintf("%s %s?%s Host=%s via=%s from=%s body=%dB chunked=%v%s headers=[%s] upstream-script={status %d framing %s body %dB info %v}", q.Method, q.RawPath, q.Query, q.HostHdr, q.Via, q.Local, len(q.Body), q.Chunked, up, strings.Join(hs, " | "), q.Script.Status, q.Script.Framing, len(q.Script.Body), q.Script.Info)
 }
